@@ -79,7 +79,7 @@ static void Handle(const json& c, vh::Report& r) {
   auto m = std::make_unique<RSModel>();
   StartModel(*m, c["preset"] == "struct", c["preset"] == "late", c["preset"] == "func");
   std::string last;
-  for (const auto& op : c["hist"]) { Apply(*m, op); last = op["op"]; }
+  for (const auto& op : c["hist"]) { Apply(*m, op); last = op["op"]; r.Count("call." + last); }
   const json wit = { {"preset", c["preset"]}, {"hist", c["hist"]} };
   const auto& obs = c["obs"];
   // ---- content conformance (drift level): order, aliases, verdicts, base keys
